@@ -227,7 +227,7 @@ func (s *Solver) readLine() string {
 	go func() {
 		select {
 		case <-done:
-		case <-time.After(time.Duration(s.tmo)*time.Millisecond + 45*time.Second):
+		case <-time.After(s.watchdog()):
 			fmt.Fprintf(os.Stderr, "solver watchdog: no answer, killing solver (%s)\n", s.ctx)
 			s.cmd.Process.Kill()
 		}
@@ -244,6 +244,15 @@ func (s *Solver) readLine() string {
 		}
 		return l
 	}
+}
+
+// watchdog is the time after which an unanswered command counts as a hang: the
+// incremental solver has a 2.5 s soft limit, the fallback the full limit.
+func (s *Solver) watchdog() time.Duration {
+	if s.isFB {
+		return time.Duration(s.tmo)*time.Millisecond + 20*time.Second
+	}
+	return 15 * time.Second
 }
 
 // restart replaces a dead solver process by a fresh one with an empty stack.
